@@ -3,14 +3,13 @@
    makedomainkey/makemapkey) and dnsdata/data_marshaltext.go (the MarshalText
    methods, putdomtext, putloctext), statement by statement.
 
-   Modelled record types (15 of 17):  % Z . & + = @ S C ^ ' : M 8 !
-   NOT modelled: B and H (SVCB/HTTPS; their parameter grammar is Model/Svcb.v, C18).
-   parse_line answers [Err E_UNMODELLED] for them; the harness still checks them
-   against the round-trip property itself (spec_ok), only not against this model.
+   Modelled record types (all 17):  % Z . & + = @ S C ^ ' : M 8 ! B H
+   B and H (SVCB/HTTPS, Rsvcb.UnmarshalText / MarshalText / MarshalMap) hand their last field,
+   the parameter list, to Model/Svcb.v (ParamList.FromText / ToText / ToWire, property C18).
 
    Library behaviour that is not modelled enters through the record [toracles]:
    strconv.IsPrint on runes >= 0x80 (used by Bquote), net.ParseIP, net.IP.String,
-   net.ParseCIDR, net.IPNet.String.
+   net.ParseCIDR, net.IPNet.String, base64.StdEncoding Decode / Encode (B/H echconfig).
    Modelled directly: strconv.ParseUint (base 10), fmt %d / %03o, bytes.Split /
    SplitN / Join / Contains / HasPrefix, toLowerASCII (since /repo c5bd440 keys are lower-cased
    A-Z only, no longer with the Unicode-aware bytes.ToLower), net.IP.To4 / To16,
@@ -20,23 +19,32 @@
    returning its argument, f[i] pointing into the line) has no counterpart.
    No proofs in this file: it must keep evaluating when a proof breaks. *)
 From DnsV Require Export Base.Bytes Model.Quote.
+(* not imported: Model/Svcb.v and Base/Text.v reuse names of this file (marshal, putdom, split_on, ...) *)
+From DnsV Require Model.Svcb Spec.SvcbWire.
 Open Scope N_scope.
 
 Record toracles := mkTO {
   o_isprint : N -> bool;                       (* strconv.IsPrint, runes >= 0x80 *)
   o_parse_ip : bytes -> option bytes;          (* net.ParseIP(string(s)): nil or the 16-byte form *)
-  o_print_ip : bytes -> bytes;                 (* net.IP(a).String() of a 16-byte slice *)
+  o_print_ip : bytes -> bytes;                 (* net.IP(a).String() of a 16-byte slice (B/H ipv4hint: also of a 4-byte slice) *)
   o_parse_cidr : bytes -> option (bytes * N * N);  (* net.ParseCIDR: (ipnet.IP (4 or 16 bytes), ones, bits) *)
-  o_print_net : bytes -> N -> bytes            (* (&net.IPNet{IP: a (16 bytes), Mask: CIDRMask(ones,128)}).String() *)
+  o_print_net : bytes -> N -> bytes;           (* (&net.IPNet{IP: a (16 bytes), Mask: CIDRMask(ones,128)}).String() *)
+  o_b64_dec : bytes -> option bytes;           (* base64.StdEncoding.Decode: error or the decoded bytes *)
+  o_b64_enc : bytes -> bytes                   (* base64.StdEncoding.Encode *)
 }.
+
+(* the library functions Model/Svcb.v asks for: the same net.ParseIP / net.IP.String, and base64 *)
+Definition sorc (o : toracles) : Model.Svcb.oracles :=
+  Model.Svcb.mkO (o_parse_ip o) (o_print_ip o) (o_b64_dec o) (o_b64_enc o).
 
 (* error enumeration *)
 Definition E_QUOTE : N := 1.       (* strconv.UnquoteChar error inside a location field *)
 Definition E_FUEL : N := 2.        (* Bunquote model out of fuel (never with the fuel supplied) *)
 Definition E_BADTYPE : N := 3.     (* ErrBadRType *)
 Definition E_NET : N := 4.         (* unparsable network in a % line *)
-Definition E_UNMODELLED : N := 8.  (* B / H line *)
+Definition E_UNMODELLED : N := 8.  (* no longer produced (was: B / H line) *)
 Definition E_PANIC : N := 9.       (* decodeRtype on an empty line: slice bounds out of range *)
+Definition E_SVCB : N := 100.      (* E_SVCB + e: ParamList.FromText error e of Model/Svcb.v (B / H line) *)
 
 (* ------------------------------------------------------------------ numbers *)
 Definition is_digit (c : N) : bool := (48 <=? c) && (c <=? 57).
@@ -215,7 +223,9 @@ Inductive record :=
 | RAux (dom : bytes) (rtype : N) (rdata : bytes) (ttl : N) (lo : bytes)                 (* : *)
 | RIpmap (dom lmap : bytes)                                                             (* M *)
 | RCsmap (dom lmap : bytes)                                                             (* 8 *)
-| RRangePoint (lmap ip : bytes) (masklen : N) (null : bool) (locid : bytes).            (* !  ip: 16 bytes; locid: 2 bytes *)
+| RRangePoint (lmap ip : bytes) (masklen : N) (null : bool) (locid : bytes)             (* !  ip: 16 bytes; locid: 2 bytes *)
+| RSvcb (https : bool) (dom : bytes) (wild : bool) (tgt : bytes) (ttl : N) (lo : bytes) (prio : N)
+        (params : list Model.Svcb.param).                                               (* B (https = false), H *)
 
 Definition LongTTL : N := 86400.
 Definition ShortTTL : N := 2560.
@@ -230,6 +240,14 @@ Definition parse_net (o : toracles) (s : bytes) : result (bytes * N) :=
     | None => match s with [] => Ok (v4pre ++ [0;0;0;0], 96) | _ => Err E_NET end
     | Some ip => Ok (ip, 128)      (* /32 of 32 widened, or /128 *)
     end
+  end.
+
+(* r.params.FromText(f[5]) on the empty list of a fresh record.  A Go run-time panic of the
+   parameter code is the panic outcome of this model; any other error is a DecodeLn error *)
+Definition svcb_params (o : toracles) (s : bytes) : result (list Model.Svcb.param) :=
+  match Model.Svcb.from_text (sorc o) s with
+  | Ok l => Ok l
+  | Err e => if (e =? Model.Svcb.E_PANIC) || (e =? Model.Svcb.E_OOR) then Err E_PANIC else Err (E_SVCB + e)
   end.
 
 Definition parse_line (o : toracles) (serial : N) (l : bytes) : result record :=
@@ -316,13 +334,25 @@ Definition parse_line (o : toracles) (serial : N) (l : bytes) : result record :=
       let v4 := match ipo with Some a => is4 a | None => false end in
       let ml := if negb null && v4 then (ml + 96) mod 256 else ml in
       Ok (RRangePoint lmap ip ml null locid))
-    else if (t =? 66) || (t =? 72) then Err E_UNMODELLED
+    else if (t =? 66) || (t =? 72) then (* B and H : Rsvcb.UnmarshalText; ttl and priority start at 0 *)
+      let '(dom, wild) := getdom (fld f 0) in
+      let tgt := fst (getdom (fld f 1)) in               (* r.tgtname, _ = getdom(f[1]): a leading "*." is dropped *)
+      let ttl := getuint max32 (fld f 2) 0 in
+      rbind (getloc (fld f 3)) (fun lo =>
+      let prio := getuint max16 (fld f 4) 0 in
+      rbind (svcb_params o (fld f 5)) (fun ps => Ok (RSvcb (t =? 72) dom wild tgt ttl lo prio ps)))
     else Err E_BADTYPE
   end.
 
 (* ------------------------------------------------------------------ MarshalText *)
 Definition SEPC : N := 44.
 Definition line_of (t : N) (fs : list bytes) : bytes := t :: joinb SEPC fs.
+
+(* r.params.ToText(buf); ToText returns nothing: where the parameter code would panic (never on a
+   list FromText produced, Proofs/Svcb.v) this total function writes nothing - [marshal_r] below
+   reports the panic *)
+Definition params_text (o : toracles) (ps : list Model.Svcb.param) : bytes :=
+  match Model.Svcb.to_text (sorc o) ps with Ok s => s | Err _ => [] end.
 
 Definition marshal (o : toracles) (r : record) : bytes :=
   let d := print_dec in
@@ -348,6 +378,16 @@ Definition marshal (o : toracles) (r : record) : bytes :=
       line_of 33 ([loctext lmap; o_print_ip o ip] ++
                   (if null then []
                    else [d (if is4 ip then (ml + 160) mod 256 else ml); loctext locid]))   (* uint8: mlen -= 96 *)
+  | RSvcb h dom wild tgt ttl lo prio ps =>      (* "*." for a wildcard owner since /repo 8a29d44 *)
+      line_of (if h then 72 else 66) [wildtext o wild dom; putdomtext o tgt; d ttl; loctext lo; d prio; params_text o ps]
+  end.
+
+(* MarshalText with its panic outcome (only B/H can panic, inside ParamList.ToText) *)
+Definition marshal_r (o : toracles) (r : record) : result bytes :=
+  match r with
+  | RSvcb _ _ _ _ _ _ _ ps =>
+    match Model.Svcb.to_text (sorc o) ps with Ok _ => Ok (marshal o r) | Err _ => Err E_PANIC end
+  | _ => Ok (marshal o r)
   end.
 
 (* ------------------------------------------------------------------ MarshalMap *)
@@ -356,6 +396,7 @@ Definition kv := (bytes * bytes)%type.
 Definition T_A : N := 1.    Definition T_NS : N := 2.   Definition T_CNAME : N := 5.
 Definition T_SOA : N := 6.  Definition T_PTR : N := 12. Definition T_MX : N := 15.
 Definition T_TXT : N := 16. Definition T_AAAA : N := 28. Definition T_SRV : N := 33.
+Definition T_SVCB : N := 64. Definition T_HTTPS : N := 65.
 
 Definition addr_kv (v2 : bool) (dom : bytes) (wild : bool) (ip : option bytes) (ttl : N) (lo : bytes) (weight : N) : list kv :=
   match ip with
@@ -413,6 +454,9 @@ Definition convert (v2 : bool) (nornet : bool) (r : record) : list kv :=
   | RCsmap dom lmap => [(mapkey v2 56 dom, lmap)]
   | RRangePoint lmap ip ml null locid =>
     [([0; 0; 0; 33] ++ lmap ++ ip ++ [if null then 0 else ml], if null then [] else locid)]
+  | RSvcb h dom wild tgt ttl lo prio ps =>      (* rrhead, priority, target name, SvcParams *)
+    [(domainkey v2 dom lo, rrhead (if h then T_HTTPS else T_SVCB) ttl lo wild ++
+       u16be prio ++ putdom tgt ++ Model.Svcb.to_wire ps)]
   end.
 
 (* ------------------------------------------------------------------ guards (decidable) *)
@@ -465,10 +509,30 @@ Definition wf_recordb (o : toracles) (r : record) : bool :=
   | RCsmap dom lmap => wf_nameb o dom && wild_okb o (is_wild dom) dom && wf_lmapb lmap
   | RRangePoint lmap ip ml null locid =>
     wf_lmapb lmap && wf_bytesb ip && (length ip =? 16)%nat && (ml <? 256) && wf_lmapb locid
+  | RSvcb h dom wild tgt ttl lo prio ps =>
+    wf_nameb o dom && wild_okb o wild dom && wf_nameb o tgt &&
+    (* the target is read back through getdom: its text must not begin with "*." *)
+    wild_okb o false tgt &&
+    u32b ttl && wf_locb lo && u16b prio &&
+    (* the parameters print (no panic) and their text holds no ',': it is the last of six fields of a
+       ','-separated line, and SplitN 15 would cut it (an alpn id with ',' can be entered through a
+       ':'-separated line) *)
+    match Model.Svcb.to_text (sorc o) ps with Ok s => negb (contains 44 s) | Err _ => false end
   end.
 
-(* the shapes on which the unchanged code does not round-trip (known findings F12, F26, F27;
-   F8 concerns the unmodelled B/H lines).
+(* B/H: the parameter list is one that ParamList.FromText produces (the only way a record gets one);
+   the one guard that is not decidable - true of every record parse_line returns *)
+Definition svcb_accepted (o : toracles) (r : record) : Prop :=
+  match r with
+  | RSvcb _ _ _ _ _ _ _ ps => exists t, Model.Svcb.from_text (sorc o) t = Ok ps
+  | _ => True
+  end.
+
+(* the 17 record type characters: % Z . & + = @ S C ^ ' : M 8 ! B H *)
+Definition modelled_type (t : N) : bool :=
+  existsb (N.eqb t) [37; 90; 46; 38; 43; 61; 64; 83; 67; 94; 39; 58; 77; 56; 33; 66; 72].
+
+(* the shapes on which the unchanged code does not round-trip (known findings F8, F12, F26, F27).
    Shapes that are kept OUTSIDE wf_recordb by decision of the coordinator (they do not round-trip
    either, observed by the harness, not counted as findings):
    - names with an empty first label that continue with "*." (`+.*.example.com`, `M.*.example.com`):
@@ -476,7 +540,10 @@ Definition wf_recordb (o : toracles) (r : record) : bool :=
    - `%ab,::ffff:0:0/90,m1`: a v4-mapped network shorter than /96 is printed by net.IPNet.String as
      0.0.0.0/0 (the per-record library round-trip premise inside wf_recordb (RNet) is false);
    - B/H: an alpn id containing ',' entered through a ':'-separated line is cut at the comma when the
-     ','-separated text form is read back (B/H are not modelled; the generator does not claim it). *)
+     ','-separated text form is read back (wf_recordb (RSvcb): no ',' in the parameter text);
+   - B/H: a target name that still begins with "*." after the one "*." that getdom drops
+     (`Bx.example.com,*.*.svc.example.com`): it is printed as it is and loses another "*." when read back
+     (wf_recordb (RSvcb): wild_okb o false tgt). *)
 (* F12: an explicit SOA serial 0 is printed as the empty field *)
 Definition f12_class (serial : N) (r : record) : bool :=
   match r with RSoa _ _ _ ser _ _ _ _ _ _ => (ser =? 0) && negb (serial =? 0) | _ => false end.
@@ -498,8 +565,20 @@ Definition f27_class (o : toracles) (r : record) : bool :=
   | _ => false
   end.
 
+(* F8: the parameters, read by the RFC 9460 decoder, declare an ipv6hint address inside ::ffff:0:0/96
+   (net.IP.String prints it as a dotted quad, which the ipv6hint parser rejects) *)
+Definition mapped16 (a : bytes) : bool :=
+  match Base.Text.ip_to4 a with Some _ => true | None => false end.
+Definition f8_params (ps : list Model.Svcb.param) : bool :=
+  match Spec.SvcbWire.rfc_decode (Model.Svcb.to_wire ps) with
+  | Some d => existsb (fun v => match v with Spec.SvcbWire.VIp6 a => existsb mapped16 a | _ => false end) d
+  | None => false
+  end.
+Definition f8_class (r : record) : bool :=
+  match r with RSvcb _ _ _ _ _ _ _ ps => f8_params ps | _ => false end.
+
 Definition finding_class (o : toracles) (serial : N) (r : record) : bool :=
-  f12_class serial r || f26_class o r || f27_class o r.
+  f12_class serial r || f26_class o r || f27_class o r || f8_class r.
 
 (* a '.' record carries the codec serial it was parsed under (the derived SOA uses it) *)
 Definition dot_serial_okb (serial : N) (r : record) : bool :=
